@@ -18,7 +18,7 @@ import pandas as pd
 
 from .. import config, lib, record, runner, tlc
 
-NCALLS = 18
+NCALLS = 21
 NAMES = {1: 'jaccard_join(S)', 2: 'jaccard_join(B,allow_missing)', 3: 'cosine_join(B,>)', 4: 'dice_join(B)',
          5: 'overlap_join(B)', 6: 'overlap_coefficient_join(B)', 7: 'edit_distance_join(default tokenizer)',
          8: 'edit_distance_join(Q set-mode qgram)', 9: 'jaccard_join(B) rejected: threshold 1.5',
@@ -26,7 +26,9 @@ NAMES = {1: 'jaccard_join(S)', 2: 'jaccard_join(B,allow_missing)', 3: 'cosine_jo
          12: 'SizeFilter(S,COSINE,0.5).filter_tables', 13: 'OverlapFilter(B,1).filter_tables',
          14: 'apply_matcher(S)', 15: 'SizeFilter(S,JACCARD,0.5).filter_tables', 16: 'profile_table_for_join',
          17: 'dataframe_column_to_str(inplace=False)',
-         18: 'dice_join(B) on a right table whose join values are all missing'}
+         18: 'dice_join(B) on a right table whose join values are all missing',
+         19: 'jaccard_join(S) with threshold 0.9', 20: 'PrefixFilter(qgram q=2, EDIT_DISTANCE, 1).filter_tables',
+         21: 'PrefixFilter(qgram q=3, EDIT_DISTANCE, 1).filter_tables'}
 
 
 def fresh_objects():
@@ -85,6 +87,13 @@ def do_call(c, ssj, L, R, C, toks):
     if c == 18:
         R0 = pd.DataFrame({'id': R['id'], 's': pd.Series([None] * len(R), dtype=object)})
         return ssj.dice_join(L, R0, *k, toks['B'], 0.5, **kw)
+    if c == 19:
+        return ssj.jaccard_join(L, R, *k, toks['S'], 0.9, **kw)
+    if c in (20, 21):
+        qt = sm.QgramTokenizer(qval=2 if c == 20 else 3, padding=False, return_set=False)
+        L2 = pd.DataFrame({'id': [1, 2], 's': pd.Series(['abcdefgh', 'abcdefg'] if c == 21 else ['abcdefg', 'abcdef'], dtype=object)})
+        R2 = pd.DataFrame({'id': [11, 12], 's': pd.Series(['abcXefgh', 'abXdefg'] if c == 21 else ['abcXefg', 'abXdef'], dtype=object)})
+        return ssj.PrefixFilter(qt, 'EDIT_DISTANCE', 1).filter_tables(L2, R2, *k, **kw)
     raise ValueError(c)
 
 
@@ -166,7 +175,7 @@ def run(tier, seed):
             'fails': fails, 'samples': samples, 'exhaustive': True,
             'model_checks': ['Session (%s): %d distinct states, invariants ModesRestored, NoLeak' % (cfg, res.distinct)],
             'spec_runs': ['Session: %d histories' % len(hists), 'TraceSession: %d histories judged' % len(recs)],
-            'rule': 'every call history up to length %d over an alphabet of %d calls (six joins, three rejected calls, '
+            'rule': 'every call history up to length %d over an alphabet of %d calls (joins, three rejected calls, '
                     'filters, matcher, profiler, converter) sharing four tokenizer objects and the tables; each call also '
                     'run in isolation in a fresh interpreter' % (3 if tier == 'quick' else 4, NCALLS)}
 
